@@ -189,7 +189,7 @@ class Report:
                     "non-trivial when its discharge needed a computed fact (guard facts, table comparison, "
                     "dataflow) rather than mere presence; distinct by (rule, construct)"
                 ),
-                "samples": self.samples[:20] or [{"note": "no obligations"}],
+                "samples": self.samples[:60] or [{"note": "no obligations"}],
                 "exhaustive": True,
                 "evaluated_points": getattr(self, "points", 0),
                 "obligations": self.evaluations,
